@@ -20,6 +20,11 @@ CHECKS = {
     technique="TLA+ oracle SerdeHdr.tla: TLC computes wire bytes and verdicts over structural classes; compared with pkg/sr (binding O1)",
     text="SerdeHdr.tla defines the Confluent header bytes (magic 0, big-endian id, index with single-zero shortcut, zig-zag varints) and the decoder verdicts. TLC generates ~2300 cases: exact Encode bytes for boundary ids x all index paths up to depth 3; DecodeID/UpdateID on short and wrong-magic inputs; DecodeIndex over declared-count classes (negative, zero shortcut, exceeding maxLength, exceeding the input, 2^62, overflowing, truncated) x indices present x maxLength; Serde.Decode/DecodeNew/Encode round trips against a fixed registry with unregistered ids/paths and truncations; panics are caught and reported.",
     note="'Arbitrary bytes never panic' is decided for these structural classes only; unbounded byte strings are outside the technique (DESIGN.md section 6)."),
+ "C38": dict(
+    level="exploration", design="5/C38, 4.13",
+    technique="TLA+ oracle Fetches.tla evaluated by TLC on generated Fetches shapes; all accessors compared (binding O1)",
+    text="Fetches.tla defines the canonical record sequence, partition multiset, per-topic merge (with topic id) and error list of an abstract Fetches value. TLC generates thousands of shapes (multi-fetch, repeated topics with and without ids, empty pieces, errors mixed with records) with the expected outputs; the runner builds the kgo.Fetches and compares RecordIter, RecordsAll (incl. early break), EachRecord, Records, NumRecords, Empty, EachPartition, EachTopic, Errors and EachError.",
+    note="Shapes are sampled by TLC's RandomElement (seeded), not enumerated exhaustively; topics are distinct within one fetch as in broker responses."),
 }
 
 NOT_APPLICABLE = {
